@@ -151,6 +151,11 @@ def run(ctx):
                               key=('Y2', d, 'mirror', k), site=site,
                               detail={'outbound': tq.text(v1) if v1 else None, 'found': tq.text(b[k]) if k in b else None})
 
+    # the values create_policy receives reach the policy message: selectors (family following the selector, not the tunnel endpoint),
+    # ports, protocol, direction, index; and the template: endpoints, family, mode, IPsec protocol
+    from .c14 import check_policy_builder
+    check_policy_builder(ctx, 'Y2')
+
     # ---------------------------------------------------------------- Y3
     pa = ctx.func('ikesacontroller.IkeSaController.process_acquire')
     A = ctx.sval(pa)
